@@ -282,7 +282,12 @@ func (e *engine) evalStrata() error {
 
 		interval := e.programInfo.InitialFactTimes[i]
 		if interval != nil && e.temporalStore != nil {
-			if _, err := e.temporalStore.Add(f, *interval); err != nil {
+			// A bound written as 'now' stands for the evaluation time.
+			resolved, err := ResolveHeadTime(interval, unionfind.New(), e.evalTime)
+			if err != nil {
+				return err
+			}
+			if _, err := e.temporalStore.Add(f, *resolved); err != nil {
 				return err
 			}
 		} else {
